@@ -765,12 +765,12 @@ impl Sim for StreamSim {
     fn plan(prop: &str, tier: Tier) -> Vec<Phase> {
         match (prop, tier) {
             ("C14", Tier::Quick) => vec![
-                Phase { name: "generated", count: 120_000, exhaustive: false },
-                Phase { name: "bundled-small", count: 1_400, exhaustive: false },
-                Phase { name: "bundled-db", count: 32, exhaustive: false },
+                Phase { name: "generated", count: 600_000, exhaustive: false },
+                Phase { name: "bundled-small", count: 8_000, exhaustive: false },
+                Phase { name: "bundled-db", count: 64, exhaustive: false },
             ],
             ("C14", Tier::Thorough) => vec![
-                Phase { name: "generated", count: 4_000_000, exhaustive: false },
+                Phase { name: "generated", count: 12_000_000, exhaustive: false },
                 Phase { name: "bundled-small", count: 40_000, exhaustive: false },
                 Phase { name: "bundled-db", count: 640, exhaustive: false },
             ],
@@ -1063,6 +1063,13 @@ impl Sim for StreamSim {
             "C15" => "fault_enumeration",
             _ => "exploration",
         }
+    }
+
+    fn components(_prop: &str) -> (Vec<String>, Vec<String>) {
+        (
+            vec!["lightmotif-io (all four readers and their nom parsers)".into(), "lightmotif (matrix types)".into(), "std::io::BufReader / read_until / read_line".into()],
+            vec!["byte source (SimSource: Read + BufRead)".into()],
+        )
     }
 
     fn assumptions(prop: &str) -> Vec<String> {
